@@ -109,7 +109,11 @@ pub(crate) fn encode_internal<W: Write, S: Borrow<Schema>>(
         | Value::LocalTimestampMicros(i)
         | Value::LocalTimestampNanos(i)
         | Value::TimeMicros(i) => encode_long(*i, writer),
-        Value::Float(x) => write_all_bytes(writer, &x.to_le_bytes()),
+        Value::Float(x) => match schema {
+            // validation accepts a float where a double is expected: widen it
+            Schema::Double => write_all_bytes(writer, &f64::from(*x).to_le_bytes()),
+            _ => write_all_bytes(writer, &x.to_le_bytes()),
+        },
         Value::Double(x) => write_all_bytes(writer, &x.to_le_bytes()),
         Value::Decimal(decimal) => match schema {
             Schema::Decimal(DecimalSchema { inner, .. }) => match inner {
